@@ -28,6 +28,14 @@ C07_NotForwarded(m, urlNames, usage, known) ==
     \A i \in 1..Len(urlNames) : urlNames[i] \in known => m \in ToSet(usage[urlNames[i]])
 \* formatting a value and parsing it back is the identity
 C07_CodecIdentity(v1, v2) == v1 = v2
+\* where the text given has a reading of its own (a decimal integer literal for an integer option), that reading is the
+\* meaning: the parsed value equals it (given = "" when the text has no independent reading), and it is what the media
+\* endpoint works with
+C07_CodecMeaning(given, v1) == given = "" \/ v1 = given
+GivenNames(given) == { n \in DOMAIN given : given[n] # "" }
+C07_GivenReachesMedia(m, usage, given, med) ==
+    \A n \in GivenNames(given) : (Influences(n) /\ m \in ToSet(usage[n])) => med[n] = given[n]
+GivenMismatches(m, usage, given, med) == { n \in GivenNames(given) : Influences(n) /\ m \in ToSet(usage[n]) /\ med[n] # given[n] }
 
 \* implementation level: an option is written to the URLs of media type m iff its value differs
 \* from the default and its usage mask contains m (container.py _generate_parameters_dict)
